@@ -17,11 +17,28 @@ def _texts(p):
     import ttconv.model as m
     return [e.get_text() for e in p.dfs_iterator() if isinstance(e, m.Text)]
 
+def _styled(p):
+    """[(character, bold?, italic?, underline?)] in document order, styles inherited from the enclosing spans"""
+    import ttconv.model as m, ttconv.style_properties as s
+    SP = s.StyleProperties
+    out = []
+    def walk(e, st):
+        b = st[0] or e.get_style(SP.FontWeight) is s.FontWeightType.bold
+        i = st[1] or e.get_style(SP.FontStyle) is s.FontStyleType.italic
+        td = e.get_style(SP.TextDecoration)
+        u = st[2] or (td is not None and td.underline is True)
+        if isinstance(e, m.Text): out.extend((ch, b, i, u) for ch in e.get_text())
+        elif isinstance(e, m.Br): out.append(("\n", b, i, u))
+        for c in e: walk(c, (b, i, u))
+    for c in p: walk(c, (False, False, False))
+    return out
+
 @witness("C10", "brace-short-tags")
 def _():
-    import ttconv.style_properties as s
-    d, ps = _read(H + "{b}x{/b}\n")
-    if "".join(_texts(ps[0])) != "x": return f"text read as {''.join(_texts(ps[0]))!r}, expected 'x' in bold"
+    d, ps = _read(H + "{b}x{/b}{i}y{/i}{u}z{/u}w\n")
+    got = _styled(ps[0])
+    if got != [("x", True, False, False), ("y", False, True, False), ("z", False, False, True), ("w", False, False, False)]:
+        return f"{{b}}x{{/b}}{{i}}y{{/i}}{{u}}z{{/u}}w read as the text {''.join(g[0] for g in got)!r} with styles {[g[1:] for g in got if g[0] in 'xyzw']!r}"
 
 @witness("C10", "stray-end-tag")
 def _():
@@ -30,6 +47,16 @@ def _():
     except (TypeError, AttributeError) as e:
         return f"a</b>c raises {type(e).__name__}"
     if "".join(_texts(ps[0])) != "ac": return f"text read as {_texts(ps[0])!r}"
+    # a closer that does not name the open element closes nothing
+    d, ps = _read(H + "<b>x</i>y</b>z\n")
+    got = _styled(ps[0])
+    if got != [("x", True, False, False), ("y", True, False, False), ("z", False, False, False)]: return f"<b>x</i>y</b>z read as {got!r}"
+    # a cue made of closers only, followed by another cue (the cursor used to end up above the body)
+    try:
+        d, ps = _read(H + "</i></i></i></i>\n\n2\n00:00:03,000 --> 00:00:04,000\nnext\n")
+    except (TypeError, AttributeError) as e:
+        return f"closers only: {type(e).__name__}"
+    if [_texts(p) for p in ps] != [[], ["next"]]: return f"closers only: read as {[_texts(p) for p in ps]!r}"
 
 @witness("C10", "literal-backslash-n-backslash-r")
 def _():
@@ -40,6 +67,20 @@ def _():
 def _():
     d, ps = _read("1\r\n00:00:01,000 --> 00:00:02,000\r\na\r\nb\r\n")
     if _texts(ps[0]) != ["a", "b"]: return f"lines read as {_texts(ps[0])!r}"
+    d, ps = _read("1\r\n00:00:01,000 --> 00:00:02,000\r\na\r\nb\r\nc")
+    if _texts(ps[0]) != ["a", "b", "c"]: return f"lines read as {_texts(ps[0])!r}"
+
+@witness("C10", "hours-beyond-999-rejected")
+def _():
+    import ttconv.srt.writer as w
+    d, ps = _read(H + "x\n")
+    ps[0].set_begin(Fraction(3599999)); ps[0].set_end(Fraction(3600000))
+    txt = w.from_model(d)
+    import ttconv.srt.reader as r
+    d2 = r.to_model(io.StringIO(txt))
+    if d2 is None: return f"the writer's output {txt!r} is not read (None returned)"
+    ps2 = list(list(d2.get_body())[0])
+    if len(ps2) != 1 or ps2[0].get_begin() != 3599999 or ps2[0].get_end() != 3600000: return f"{txt!r} read as {[(p.get_begin(), p.get_end()) for p in ps2]!r}"
 
 @witness("C10", "srt-hours-three-digits-exact")
 def _():
